@@ -61,9 +61,10 @@ def run(tier, seed):
     if not cases:
         raise MachineryError("C16: no applicable kernel found (vacuous run)")
     d = workdir("c16")
-    dump(programs, d / "progs.json")
-    dump(cases, d / "cases.json")
-    r = run_tlc("KernelRun", "KernelRun.cfg", env={"VF_PROGS": d / "progs.json", "VF_CASES": d / "cases.json"})
+    # chunked runs (each with only the programs it needs): the thorough tier's constants are too large for one TLC run
+    from ..irtrees import machine_chunks
+
+    r = machine_chunks(programs, cases, d, "c16", per_chunk=2500)
     import shutil
 
     shutil.rmtree(d, ignore_errors=True)
